@@ -326,7 +326,8 @@ def run_job(job, seed=0):
         idx = summ['paths']
         summ['decisions'] += pr.ndecisions
         if pr.outcome in ('unsupported', 'limit'):
-            summ['errors'].append({'kind': pr.outcome, 'msg': str(pr.exc)[:500], 'path': idx})
+            summ['errors'].append({'kind': pr.outcome, 'msg': str(pr.exc)[:500], 'path': idx,
+                                   'tb': '\n'.join(getattr(pr, 'tb', '').splitlines()[-14:])})
             return
         for g in pr.goals:
             summ['labels'][g.label] = summ['labels'].get(g.label, 0) + 1
@@ -373,8 +374,10 @@ def run_job(job, seed=0):
                 if res['assume_failed'] or res['missing']:
                     summ['validation_skipped'] += 1
                 elif res['exception']:
-                    summ['validation_mismatch'].append(
-                        {'path': idx, 'why': 'concrete run raised ' + res['exception'], 'values': _jsonable_values(vals)})
+                    # the real library raises on a solver-generated input of a feasible path: a replayed failure
+                    _record_violation(job, summ, vals, tables, 'exception:%s' % res.get('exception_type'),
+                                      'concrete run of a feasible path raised ' + res['exception'] + ' | ' + res.get('tb', '')[-600:],
+                                      True, res.get('exception_type'))
                 else:
                     bad = [l for (l, ok, _) in res['goals'] if not ok]
                     mism = _compare_obs(ctx, m, res['observations'])
@@ -476,8 +479,12 @@ def _handle_violation(job, summ, ctx, S, model, label, detail, exc_type):
     if res['assume_failed']:
         how = 'concrete replay left the assumed region (rounding of model values)'
     elif exc_type is not None:
-        reproduced = res['exception'] is not None and res.get('exception_type') == exc_type
+        # any exception out of the real library on the solver's input is a failure of the real code; the type may differ
+        # from the lifted run where numpy floats and Python floats differ (division by zero: inf/nan vs ZeroDivisionError)
+        reproduced = res['exception'] is not None
         how = 'replay raised %s' % res['exception'] if res['exception'] else 'replay raised nothing'
+        if reproduced and res.get('exception_type') != exc_type:
+            label = 'exception:%s' % res.get('exception_type')
     else:
         failing = [l for (l, ok, _) in res['goals'] if not ok]
         if res['exception']:
@@ -588,7 +595,7 @@ def main_check(pid, module, tier, jobs, meta, procs=None):
         n += 1
         p = write_replay(pid, n, module, v)
         print('VIOLATION property=%s replay=%s' % (pid, p))
-        print('  job=%s goal=%s :: %s' % (v['job'], v['label'], (v['detail'] or '')[:400].replace('\n', ' | ')))
+        print('  job=%s goal=%s :: %s' % (v['job'], v['label'], (v['detail'] or '')[-300:].replace('\n', ' | ')))
     for v in unreproduced[:10]:
         print('INCONCLUSIVE (encoding mismatch, counterexample did not replay) job=%s goal=%s :: %s' % (
             v['job'], v['label'], (v['detail'] or '')[:300].replace('\n', ' | ')))
@@ -667,4 +674,21 @@ def prepare_process():
     os.environ.setdefault('MPLBACKEND', 'Agg')
     if '/repo' not in sys.path:
         sys.path.insert(0, '/repo')
+    preload()
     return d
+
+
+PRELOAD = ['StandardCombi', 'Grid', 'Function', 'Utils', 'ComponentGridInfo', 'combiScheme', 'BasisFunctions', 'Hierarchization', 'Integrator',
+           'RefinementObject', 'RefinementContainer', 'ErrorCalculator', 'GridOperation', 'DimAdaptiveCombi',
+           'spatiallyAdaptiveBase', 'spatiallyAdaptiveSingleDimension2', 'spatiallyAdaptiveExtendSplit', 'spatiallyAdaptiveCell',
+           'Extrapolation', 'DEMachineLearning']
+
+
+def preload():
+    """Import the library modules (fresh from /repo's working tree) before any shim is installed: the shim rebinds
+    names in the modules that are loaded."""
+    import importlib
+    import warnings
+    warnings.filterwarnings('ignore')
+    for m in PRELOAD:
+        importlib.import_module('sparseSpACE.' + m)
